@@ -86,6 +86,8 @@ PLAN = {   # which properties' quick checks are run against which seeded change
     "C02-c": ["C02"], "C03-c": ["C03"], "C04-c": ["C04", "C17"], "C05-c": ["C05"], "C20-c": ["C20"],
     "C01-d": ["C01"], "C06-d": ["C06"], "C07-d": ["C07"], "C08-d": ["C08"], "C12-d": ["C12"], "C13-d": ["C13"], "C14-d": ["C14"],
     "C15-d": ["C15"], "C17-d": ["C17"], "C19-d": ["C19"],
+    "C02-e": ["C02"], "C03-e": ["C03"], "C04-e": ["C04"], "C05-e": ["C05"], "C09-e": ["C09"], "C10-e": ["C10"], "C11-e": ["C11"],
+    "C16-e": ["C16"], "C18-e": ["C18"], "C20-e": ["C20"],
 }
 
 
